@@ -144,7 +144,12 @@ def oracle(case, ctx):
             return [D("tuner_fit_raised:%s@%s" % (r0.type, r0.where), "%s earlier search with grid=%s: %s" % (case["base"], g0, r0.msg))]
         tuner.set_params(**{("param_grid" if case["search"] == "grid" else "param_distributions"): grid})
         ctx.label("tuner_searched_before")
-    r = sut(tuner.fit, yc, None if X is None else X.copy(), fh)
+    # the horizon given to the tuner's fit is the one the winner is refitted for; it need not
+    # be the horizon the candidates are scored on (the splitter's)
+    fit_fh = case["fit_fh"] if case.get("fit_fh") and X is None else fh
+    if fit_fh != fh:
+        ctx.label("fit_horizon_differs_from_splitter_horizon")
+    r = sut(tuner.fit, yc, None if X is None else X.copy(), fit_fh)
     ctx.label(case["base"])
     ctx.label(case["search"])
     ctx.label("greater_is_better" if gib else "loss")
@@ -197,7 +202,11 @@ def oracle(case, ctx):
         discs.append(D("best_params", "best_params_ %s row %s" % (tuner.best_params_, cands[bi])))
     if case["refit"]:
         direct = build_base(case["base"]).set_params(**cands[bi])
-        direct.fit(y, None if X is None else X.copy(), fh)
+        direct.fit(y, None if X is None else X.copy(), fit_fh)
+        if X is None:
+            # asked without a horizon, both answer for the horizon given to fit
+            discs += _same_pred(sut(tuner.predict), sut(direct.predict), "predict without horizon")
+
         def xf(c):
             # future values of the exogenous variable for every step up to the furthest one
             if X is None:
@@ -305,6 +314,7 @@ def cases(draw):
     search = draw(st.sampled_from(["grid", "grid", "random"]))
     grid = draw(grids(base, search))
     fh = draw(gen.fh_steps(max_step=3, max_size=2))
+    fit_fh = draw(st.one_of(st.none(), st.none(), gen.fh_steps(max_step=5, max_size=3)))
     wl = draw(st.integers(9, 14))
     n = draw(st.integers(wl + fh[-1] + 2, wl + fh[-1] + 12))
     cv = {"kind": draw(st.sampled_from(["expanding", "sliding", "single"])), "fh": fh, "wl": wl,
@@ -319,6 +329,7 @@ def cases(draw):
         "strategy": draw(st.sampled_from(["refit", "refit", "update"])),
         "scale": draw(st.sampled_from([1.0, 1.0, 1e-6, 1e-4, 1e-3, 1e4])),
         "prefit": draw(st.integers(0, 2)) == 0, "rs_kind": draw(st.sampled_from(["int", "instance"])),
+        "fit_fh": fit_fh,
     }
 
 
